@@ -111,7 +111,7 @@ impl Epoch {
             "Attempted to initialize Epoch with non finite number"
         );
         Self {
-            duration: (days - MJD_J1900) * Unit::Day,
+            duration: (days - MJD_J1900) * Unit::Day - time_scale.gregorian_epoch_offset(),
             time_scale,
         }
     }
@@ -148,7 +148,8 @@ impl Epoch {
             "Attempted to initialize Epoch with non finite number"
         );
         Self {
-            duration: (days - MJD_J1900 - MJD_OFFSET) * Unit::Day,
+            duration: (days - MJD_J1900 - MJD_OFFSET) * Unit::Day
+                - time_scale.gregorian_epoch_offset(),
             time_scale,
         }
     }
